@@ -290,7 +290,82 @@ func c19Same(c *Ctx) {
 	}
 }
 
+// c19ListEncoder: labelsToBytes is the plain concatenation of the per-name encodings, in order, for every list:
+// one scan over the argument, the accumulator grows by append(acc, labelToBytes(name)...) on every iteration, every
+// return yields the accumulator after the scan. (No compression pointers, no size-dependent alternative form: DHCPv6
+// forbids compression (RFC 8415 §10) and the decoder of the peer need not implement it.)
+func c19ListEncoder(c *Ctx) {
+	r, sx := c.R, c.Sx()
+	f := lblFunc(c, "labelsToBytes")
+	per := lblFunc(c, "labelToBytes")
+	key := "rfc1035label.labelsToBytes: the encoding of a list is the concatenation of the encodings of its names, in order, on every path"
+	if f == nil || per == nil {
+		r.Undecided("C19-K2", key, "-", "labelsToBytes / labelToBytes not found")
+		return
+	}
+	ls := findScanLoops(f)
+	if len(ls) != 1 || ls[0].coll != ssa.Value(f.Params[0]) {
+		r.Undecided("C19-K2", key, c.P.pos(f.Pos()), "not one ascending scan of the argument (idiom not recognised)")
+		return
+	}
+	l := ls[0]
+	el := l.elems(sx)
+	ok, why := true, ""
+	if len(l.sideExits()) > 0 {
+		ok, why = false, "the scan can stop early"
+	}
+	var acc *ssa.Phi
+	var app *ssa.Call
+	for _, in := range l.hdr.Instrs {
+		ph, isPhi := in.(*ssa.Phi)
+		if !isPhi {
+			break
+		}
+		if _, isSl := ph.Type().Underlying().(*types.Slice); !isSl {
+			continue
+		}
+		good := true
+		var a *ssa.Call
+		for i, e := range ph.Edges {
+			if !l.loop[l.hdr.Preds[i]] {
+				good = good && isEmptyInit(e)
+				continue
+			}
+			cl, isCall := e.(*ssa.Call)
+			if !isCall || !isBuiltinCall(cl.Common(), "append") || len(cl.Call.Args) != 2 || cl.Call.Args[0] != ssa.Value(ph) {
+				good = false
+				continue
+			}
+			enc, isEnc := cl.Call.Args[1].(*ssa.Call)
+			if !isEnc || enc.Call.StaticCallee() != per || len(enc.Call.Args) != 1 || !el[enc.Call.Args[0]] {
+				good = false
+				continue
+			}
+			a = cl
+		}
+		if good && a != nil {
+			acc, app = ph, a
+		}
+	}
+	if acc == nil {
+		ok, why = false, "no accumulator that starts empty and grows by append(acc, labelToBytes(name)...) on every iteration"
+	}
+	if ok {
+		for _, rt := range returnsOf(f) {
+			if len(rt.Results) != 1 || rt.Results[0] != ssa.Value(acc) || !(rt.Block() == l.done || l.done.Dominates(rt.Block())) {
+				ok, why = false, "a return yields something other than the concatenation (an alternative encoding on some path)"
+			}
+		}
+	}
+	pos := c.P.pos(f.Pos())
+	if app != nil {
+		pos = c.P.ipos(app)
+	}
+	r.Check(ok, "C19-K2", key, pos, "scan loop, unconditional append of the per-name encoding, accumulator returned", why)
+}
+
 func c19Encoder(c *Ctx) {
+	c19ListEncoder(c)
 	r, sx := c.R, c.Sx()
 	f := lblFunc(c, "labelToBytes")
 	if f == nil {
